@@ -142,9 +142,13 @@ pub mod model {
             r matches Some(v) ==> value.obj.find_spec(path_keys(path@)) == Some(v.vid()),
             r is None ==> value.obj.find_spec(path_keys(path@)) is None,
     { unimplemented!() }
-    /// model::find: Ok exactly when try_find is Some, with the same value (assumed; body is model/find.rs find())
+    /// model::find: Ok exactly when try_find is Some, with the same value (the real body is under contract in unit `find`;
+    /// here the object-level abstraction of that contract, with its precondition)
     #[verifier::external_body]
     pub fn find<O: ObjectView>(value: ObjAsValue<'_, O>, path: &[ScalarCow]) -> (r: Result<ValueCow>)
+        // find() PANICS when not even the first step resolves (unit `find` proves: only then); every layer must ask
+        // its own map for the root name first                                                     // [C02:find_is_only_called_on_a_defined_root]
+        requires path@.len() >= 1, value.obj.dom().contains(path_keys(path@)[0]),
         ensures
             r matches Ok(v) ==> value.obj.find_spec(path_keys(path@)) == Some(v.vid()),
             r is Err ==> value.obj.find_spec(path_keys(path@)) is None,
